@@ -8,7 +8,7 @@
 From XcpModel Require Import Base Backup Paths Walker.
 From XcpProofs Require Import WalkerProofs.
 From XcpModel Require Import Extracted.
-From XcpProofs Require Import ExtractedOk.
+From XcpProofs Require Import XConfig.
 From Coq Require Import String.
 From XcpProofs Require Import PinnedSource.
 From XcpPins Require Import Pin_paths_parse_ignore Pin_paths_ignore_filter.
@@ -84,3 +84,19 @@ Print Assumptions C17_root_never_filtered.
 Print Assumptions C17_src_filter_and_per_source_matcher.
 Print Assumptions C17_src_pin_paths_parse_ignore.
 Print Assumptions C17_src_pin_paths_ignore_filter.
+
+(* ---- further glue on this property's path, pinned token for token (an edit re-opens the obligation; the run then
+   looks for a failing input) ---- *)
+From XcpPins Require Import Pin_main_main Pin_main_expand_sources.
+Theorem C17_src_pin_main_main : pin_unchanged name_main_main.
+Proof. exact pin_main_main. Qed.
+Theorem C17_src_pin_main_expand_sources : pin_unchanged name_main_expand_sources.
+Proof. exact pin_main_expand_sources. Qed.
+(* Config::from(&Opts) is one struct literal with no `..default` tail, and every option other than the worker count
+   and the block size reaches the library unchanged under its own name *)
+Theorem C17_src_options_reach_config : forall f e, List.In (f, e) x_config_fields ->
+  f <> "workers"%string -> f <> "block_size"%string -> e = ("opts." ++ f)%string.
+Proof. exact x_config_fields_plain. Qed.
+Print Assumptions C17_src_options_reach_config.
+Print Assumptions C17_src_pin_main_main.
+Print Assumptions C17_src_pin_main_expand_sources.
